@@ -305,8 +305,8 @@ def _scaling(prog, ev, mb, dm, table_name, res_name):
                 st.env[n.func.value.id] = out
         try:
             tree = ev.exec_block(loop.body, st, Ctx(dm, mb, None, 0))
-        except Undecided as exc:
-            return (False, f'scaling loop not readable: {exc}', loop.lineno)
+        except Undecided:
+            return None
         want = A.sym('cd') / A.sym('interp[i]')
         for _p, leaf in leaves(tree):
             h = leaf.state.heap
@@ -326,8 +326,8 @@ def _scaling(prog, ev, mb, dm, table_name, res_name):
             st.env.update({iname: S('i'), pname: point, res_name: SymObj('interp')})
             try:
                 v = ev.eval(comp.elt, st, Ctx(dm, mb, None, 0))
-            except Undecided as exc:
-                return (False, f'scaling comprehension not readable: {exc}', comp.lineno)
+            except Undecided:
+                return None
             want = A.sym('cd') / A.sym('interp[i]')
             cd = st.heap[v.oid].get('CD') if isinstance(v, Inst) else None
             if isinstance(cd, Scalar) and cd.rf.equals(want):
